@@ -129,6 +129,12 @@ def corpus_cases():
         {"kind": "allometry", "ids": None, "seed": 11, "var": "WGT", "ref": 70, "params": None, "nocov": True},
         {"kind": "transit", "ids": None, "seed": 12, "base": "pheno", "ns": [2, 4, 3], "keep_depot": True},
         {"kind": "transit", "ids": None, "seed": 13, "base": "fo", "ns": [3, 1], "keep_depot": True},
+        # reducing to a single transit without depot leaves the rate 5/MDT
+        {"kind": "transit", "ids": None, "seed": 14, "base": "pheno", "ns": [5, 1], "keep_depot": True},
+        # after all transits were removed the next call raises
+        {"kind": "transit", "ids": None, "seed": 15, "base": "pheno", "ns": [4, 0, 3], "keep_depot": False},
+        {"kind": "iiv", "ids": None, "seed": 16, "param": "TVCL", "form": "re_log", "op": "*"},
+        {"kind": "error", "ids": None, "seed": 17, "base": "prop", "setter": "dtbs", "log": False, "zp": True, "cutoff": 1},
     ]
 
 
@@ -406,6 +412,8 @@ def run_iiv(case, drv, rng, k, mon, tags):
         if vo is None:
             continue
         want = doc_iiv(form, op, vo, pt[S(eta)])
+        if want.has(sympy.nan, sympy.zoo, sympy.oo):
+            continue        # documented formula undefined at this point (Theta = 1 in the rescaled logit)
         if not U.same_value(vn, want, TOL):
             mon.append({"cls": "iiv-formula", "what": f"{P} after add_iiv({form},{op}) is {vn}, documented {want} "
                         f"(old value {vo}, eta {pt[S(eta)]})"})
@@ -786,17 +794,22 @@ def run_allometry(case, drv, rng, k, mon, tags):
 
 
 def chain_of(model):
-    """[(numerator, MDT symbol name)] of the transit chain in flow order, or None when a rate is not n/symbol"""
+    """transit chain by compartment name (TRANSIT1..k, independent of pharmpy's transit detection):
+    [(compartment name, numerator, denominator, rate expression with K-symbols resolved one level)]"""
     cs = model.statements.ode_system
-    transits = cs.find_transit_compartments(model.statements)
-    order = sorted(transits, key=lambda c: U.natural_key(c.name))
     out = []
-    for c in order:
+    i = 1
+    while cs.find_compartment(f"TRANSIT{i}") is not None:
+        c = cs.find_compartment(f"TRANSIT{i}")
         _, rate = cs.get_compartment_outflows(c)[0]
-        e = U.norm(model.statements.before_odes.full_expression(rate)) if rate.is_symbol() else U.norm(rate)
+        e = U.norm(rate)
+        for _ in range(3):      # K12 = 5/MDT, KA = K12
+            if e.is_Symbol and model.statements.find_assignment(str(e)) is not None and str(e) not in ("MDT", "MAT"):
+                e = U.norm(model.statements.find_assignment(str(e)).expression)
         num, den = e.as_numer_denom()
-        out.append((num, den, e))
-    return order, out
+        out.append((c.name, num, den, e))
+        i += 1
+    return out
 
 
 def run_transit(case, drv, rng, k, mon, tags):
@@ -811,49 +824,55 @@ def run_transit(case, drv, rng, k, mon, tags):
             cmp_expr("first-order absorption rate", t[4], ka.xreplace({S("MAT"): S("mat_symb")}), rng, k)
     chain = []
     changed = False
+    removed_all = False
     for n in case["ns"]:
         tags.append(f"transit:n={n}")
-        before = len(m.statements.ode_system.find_transit_compartments(m.statements))
+        before = len(chain_of(m))
         try:
             m2 = pm.set_transit_compartments(m, n, keep_depot=case["keep_depot"])
         except ValueError as e:
             if "Cannot set the number of transits to 1" in str(e):
                 tags.append("refused:one-transit-instantaneous")
                 continue
-            mon.append({"cls": "transit-internal-error", "what": f"set_transit_compartments({n}) raised ValueError: {e}"})
+            cls = "transit-internal-error"
+            if removed_all and ("is not defined" in str(e) or "defined after being used" in str(e)):
+                cls = "transit-set-after-removing-all-transits-internal-error"
+            mon.append({"cls": cls, "what": f"set_transit_compartments({n}) after {before} transits raised ValueError: {e}"})
             return changed
         except Exception as e:
             mon.append({"cls": "transit-internal-error", "what": f"set_transit_compartments({n}) after {before} transits raised "
                         f"{type(e).__name__}: {e}"})
             return changed
-        order, rates = chain_of(m2)
-        if len(order) != n:
-            mon.append({"cls": "transit-count", "what": f"set_transit_compartments({n}): model has {len(order)} transit compartments"})
+        rates = chain_of(m2)
+        depot = m2.statements.ode_system.find_compartment("DEPOT") is not None
+        if len(rates) != n:
+            mon.append({"cls": "transit-count", "what": f"set_transit_compartments({n}) from {before}: model has {len(rates)} TRANSIT compartments"})
             return changed
-        mdt = S("MDT")
-        for c, (num, den, e) in zip(order, rates):
-            # the mean transit time through n compartments is MDT iff every rate is n/MDT
-            pt = {s: Rational(rng.randint(1, 9), rng.randint(1, 5)) for s in e.free_symbols}
-            v = U.value_at(e, pt)
-            mdt_e = U.norm(m2.statements.before_odes.full_expression("MDT")) if m2.statements.find_assignment("MDT") else mdt
-            vm = U.value_at(mdt_e, pt) if mdt_e.free_symbols <= set(pt) else None
-            if vm is None or not U.same_value(v, n / vm, TOL):
-                mon.append({"cls": "transit-rate-not-n-over-mdt", "what": f"set_transit_compartments({n}) (from {before}): rate out of "
-                            f"{c.name} is {e}, documented {n}/MDT"})
-                return changed
         if drv is not None:
-            ans = drv.ask(["transit", [[a, b] for a, b in chain], n, "MDT"])
+            ans = drv.ask(["transit", [[a, b] for a, b in chain], n, "MDT", depot])
             model_chain = [(int(a), b) for a, b, _ in ans]
-            code_chain = [(int(num), str(den)) for num, den, _ in rates] if all(num.is_Integer and den.is_Symbol for num, den, _ in rates) else None
-            if code_chain is None:
-                k.append(f"set_transit_compartments({n}): a rate is not integer/symbol: {[str(r[2]) for r in rates]}")
-            else:
-                # the code's rates are n/MDT with MDT = POP_MDT: compare numerators and the chain length
-                if [a for a, _ in model_chain] != [a for a, _ in code_chain]:
-                    k.append(f"set_transit_compartments({n}) from {chain}: model numerators {model_chain} code {code_chain}")
+            if not all(num.is_Integer and den.is_Symbol for _, num, den, _ in rates):
+                k.append(f"set_transit_compartments({n}): a rate is not integer/symbol: {[str(r[3]) for r in rates]}")
+            elif [a for a, _ in model_chain] != [int(num) for _, num, _, _ in rates]:
+                k.append(f"set_transit_compartments({n}) from {chain} (depot={depot}): model numerators {model_chain} code "
+                         f"{[str(r[3]) for r in rates]}")
             chain = model_chain
+        # Mon: the mean transit time through n compartments is MDT iff every rate is n/MDT (one and the same MDT symbol)
+        dens = {str(den) for _, _, den, _ in rates}
+        for name, num, den, e in rates:
+            if not (den.is_Symbol and num == n and len(dens) == 1):
+                cls = "transit-rate-not-n-over-mdt"
+                if n == 1 and not depot and before > 1:
+                    cls = "transit-single-remaining-rate-not-updated"
+                mon.append({"cls": cls, "what": f"set_transit_compartments({n}) (from {before}, depot={depot}): rate out of {name} is {e}, "
+                            f"documented {n}/MDT"})
+                break
         changed = changed or before != n
+        removed_all = removed_all or (n == 0 and before > 0)
         m = m2
+        if n == 1 and not depot:
+            tags.append("history-stopped:single-transit-without-depot-is-not-detected")
+            break
     return changed
 
 
